@@ -8,7 +8,7 @@ ones left behind (caches, class attributes, process-global numeric settings).
 
 Blocks (called from harness/c06.py):
 * related_block  — groups of RELATED syndromes (same defects in one sector / same X-, Z- or Y-part of the
-  error, different other part) decoded after one another in every rotation, for every stateful decoder family,
+  error, different other part; or the very same syndrome under several priors) decoded after one another in every rotation, for every stateful decoder family,
   plus one long shuffled history per lattice family; each decode is compared with the same decode done first in
   a pristine fork.
 * matrix_block   — every component family as PRIOR activity before a battery of tie-prone TARGETS of every
@@ -52,7 +52,7 @@ def execute(op, get, returned=None):
     from qecsim import paulitools as pt
     if op['op'] == 'decode' and 'syndrome' not in op:
         return W.execute(op, get)
-    if op['op'] == 'run':
+    if op['op'] in ('run', 'decode_ftp'):
         return W.execute(op, get)
     code, dec, em = get(op['code']), get(op['dec']), get(op['em'])
     kw = {'error_model': em, 'error_probability': op['p']}
@@ -121,6 +121,59 @@ def run_scenario(ops, ns):
             st = st2
         res.append(r)
     return res
+
+
+# direct DecoderFTP.decode_ftp calls (time_steps 1..4): (codes, decoders, error models, decoder needs step_measurement_errors)
+FTPD = [(['RotatedPlanarCode(3,3)', 'RotatedPlanarCode(3,5)', 'RotatedPlanarCode(4,4)', 'RotatedPlanarCode(5,5)', 'RotatedPlanarCode(5,3)'],
+         ['RotatedPlanarSMWPMDecoder()', 'RotatedPlanarSMWPMDecoder(3)'],
+         ['BitPhaseFlipErrorModel()', 'DepolarizingErrorModel()', 'BiasedDepolarizingErrorModel(10, "Y")'], False),
+        (['RotatedToricCode(2,2)', 'RotatedToricCode(2,4)', 'RotatedToricCode(4,4)', 'RotatedToricCode(4,2)'],
+         ['RotatedToricSMWPMDecoder()', 'RotatedToricSMWPMDecoder(False, 3)', 'RotatedToricSMWPMDecoder(True)'],
+         ['BitPhaseFlipErrorModel()', 'DepolarizingErrorModel()', 'BiasedDepolarizingErrorModel(10, "Y")'], True)]
+_NQ = {}
+
+
+def ftp_decode_op(rng, ns, fam=None):
+    """A direct decode_ftp call as a user makes it: step errors and measurement errors per time step (the syndrome is built
+    from them as qecsim.app does), context arrays passed or not, the 2-d syndrome array held by the caller in several ways."""
+    codes, decs, ems, needs_meas = rng.choice(FTPD) if fam is None else FTPD[fam]
+    code, dec, em = rng.choice(codes), rng.choice(decs), rng.choice(ems)
+    if code not in _NQ:
+        c = eval(code, dict(ns))
+        _NQ[code] = (c.n_k_d[0], len(c.stabilizers))
+    n, m = _NQ[code]
+    T = rng.choice([1, 2, 2, 3, 3, 4])
+    yonly = 'BitPhaseFlip' in em and '3)' not in dec      # infinite bias (no eta override): only Y errors are in its domain
+    pe, qe = rng.choice([0.03, 0.08, 0.15]), rng.choice([0.0, 0.05, 0.15])
+    step_errors, step_meas = [], []
+    for _ in range(T):
+        e = [0] * (2 * n)
+        for q in range(n):
+            if rng.random() < pe:
+                pl = 3 if yonly else rng.randint(1, 3)
+                e[q], e[n + q] = pl & 1, (pl >> 1) & 1
+        step_errors.append(''.join(map(str, e)))
+        step_meas.append(''.join('1' if (T > 1 and rng.random() < qe) else '0' for _ in range(m)))
+    ctxs = ['full', 'full', 'meas'] + ([] if needs_meas and T > 1 and '(True)' not in dec else ['none'])
+    return {'op': 'decode_ftp', 'code': code, 'dec': dec, 'em': em, 'T': T, 'p': rng.choice([0.05, 0.1, 0.2]),
+            'q': rng.choice([None, 0.05, 0.1, 0.2]), 'step_errors': step_errors, 'step_meas': step_meas,
+            'ctx': rng.choice(ctxs), 'layout': rng.choice(['own', 'own', 'view', 'fortran', 'readonly'])}
+
+
+def report_ftp(ctx, op, r, where):
+    """direct decode_ftp call: caller-visible arrays bit for bit, decoding the same arrays again, recovery vs syndrome"""
+    if r['mutated']:
+        ctx.violation('caller-array-modified', 'a direct decode_ftp call modified arrays the caller holds: ' + ', '.join(r['mutated']),
+                      {'op': op, 'where': where, 'modified': r['mutated'], 'before_after': r.get('mutated_detail')})
+    if 'redecode' in r:
+        ctx.violation('redecode-differs', 'decoding the very same syndrome array object a second time gives another result',
+                      {'op': op, 'where': where, 'first': r['result'][:300], 'second': r['redecode'][:300],
+                       'arrays_modified_by_first_call': r['mutated']})
+    if r['result'].startswith('ERR') or '!syndrome' in r['result']:
+        ctx.violation('raises' if r['result'].startswith('ERR') else 'recovery-wrong-syndrome',
+                      'decode_ftp raised / the recovery does not reproduce the XOR over time of the syndrome the caller supplied',
+                      {'op': op, 'where': where, 'result': r['result'][:300]})
+
 
 
 # ------------------------------------------------------------------ server
@@ -362,6 +415,7 @@ RELATED = [
      [('Color666MPSDecoder(4)', 1)], ['DepolarizingErrorModel()'], False, [0.1, 0.3]),
 ]
 OTHER_SIZES = [1, 2, 3, 4, 6, 8, 12]
+PRIOR_PS = [0.02, 0.05, 0.1, 0.2, 0.3, 0.45]
 
 
 def _wchoice(rng, pairs):
@@ -430,8 +484,18 @@ def related_block(ctx, ngroups):
                     for q in rng.sample(range(n), min(sz, n)):
                         e[n + q if xs else q] = 1
                     syns.append((W.bitstr(pt.bsp(e, code.stabilizers.T)), W.bitstr(e)))
+            variants = [(s, e, em, p) for s, e in syns]
+            if rng.random() < 0.3:
+                # the SAME syndrome under several priors (other probability / error model) on the same decoder and code
+                # objects: state keyed on the syndrome but not on the prior shows up in some rotation
+                s0, e0 = syns[rng.randrange(len(syns))]
+                ems2 = [x for x in ems if how == 'error-Y' or 'BitPhaseFlip' not in x] or [em]
+                pri = [(x, y) for x in ems2 for y in PRIOR_PS]
+                rng.shuffle(pri)
+                variants = [(s0, e0, x, y) for x, y in pri[:max(V, 4)]]
+                how += '+same-syndrome-other-prior'
             ids = []
-            for s, e in syns:
+            for s, e, em, p in variants:
                 op = {'op': 'decode', 'code': cexpr, 'dec': dexpr, 'em': em, 'p': p, 'syndrome': s}
                 pid = json.dumps(op, sort_keys=True)
                 if pid in ids:
@@ -493,7 +557,7 @@ def related_block(ctx, ngroups):
                 if nbad <= 4:
                     _confirm(ctx, 'history-dependence-related-syndromes',
                              'the recovery for a syndrome differs from the recovery in a fresh process after related syndromes '
-                             '(same defects in one sector) were decoded', jobs[si][:i], jobs[si][i], exp, r['result'],
+                             '(same defects in one sector, or the same syndrome under another prior) were decoded', jobs[si][:i], jobs[si][i], exp, r['result'],
                              {'family': meta[si][0], 'scenario_kind': meta[si][1], 'built': probes[pid]['built'],
                               'error_with_this_syndrome': probes[pid]['from_error']})
     ctx.extra['related_syndrome_scenarios'] = len(scenarios)
@@ -507,8 +571,9 @@ def _run(code, dec, em, p, seed, max_runs, **kw):
     return dict({'op': 'run', 'code': code, 'dec': dec, 'em': em, 'p': p, 'seed': seed, 'max_runs': max_runs}, **kw)
 
 
-def priors(rng):
-    """One short activity per component family (a seeded run and nothing else), on its own objects."""
+def priors(rng, ns=None):
+    """One short activity per component family (a seeded run and nothing else; for the FTP decoders also a direct
+    decode_ftp call), on its own objects."""
     s = lambda: rng.randint(0, 9)      # noqa
     dep, bpf = 'DepolarizingErrorModel()', 'BitPhaseFlipErrorModel()'
     P = [
@@ -523,9 +588,11 @@ def priors(rng):
                                     dep, 0.2, s(), 3)]),
         ('rotatedplanar-rmps', [_run('RotatedPlanarCode(3,3)', 'RotatedPlanarRMPSDecoder(4)', dep, 0.2, s(), 3)]),
         ('rotatedplanar-smwpm', [_run('RotatedPlanarCode(3,5)', 'RotatedPlanarSMWPMDecoder()', 'BiasedDepolarizingErrorModel(10, "Y")', 0.2, s(), 3),
-                                 _run('RotatedPlanarCode(3,3)', 'RotatedPlanarSMWPMDecoder()', bpf, 0.1, s(), 2, T=2, q=0.05)]),
+                                 _run('RotatedPlanarCode(3,3)', 'RotatedPlanarSMWPMDecoder()', bpf, 0.1, s(), 2, T=2, q=0.05)] +
+         ([ftp_decode_op(rng, ns, 0)] if ns else [])),
         ('rotatedtoric-smwpm', [_run('RotatedToricCode(4,4)', 'RotatedToricSMWPMDecoder()', dep, 0.1, s(), 3),
-                                _run('RotatedToricCode(2,2)', 'RotatedToricSMWPMDecoder()', bpf, 0.1, s(), 2, T=2, q=0.05)]),
+                                _run('RotatedToricCode(2,2)', 'RotatedToricSMWPMDecoder()', bpf, 0.1, s(), 2, T=2, q=0.05)] +
+         ([ftp_decode_op(rng, ns, 1)] if ns else [])),
         ('color-mps', [_run('Color666Code(3)', rng.choice(['Color666MPSDecoder(4)', 'Color666MPSDecoder()']), dep, 0.2, s(), 3)]),
         ('naive', [_run('FiveQubitCode()', 'NaiveDecoder()', dep, 0.2, s(), 3), _run('SteaneCode()', 'NaiveDecoder()', 'PhaseFlipErrorModel()', 0.2, s(), 3)]),
         ('error-models', [_run('PlanarCode(3,3)', 'PlanarMWPMDecoder()', em, 0.2, s(), 2) for em in
@@ -593,6 +660,9 @@ def battery(ctx, ns, heavy):
             n_runs = nr if cost <= 4 else nr // 2
             T.append((fam, _run(c, d, em, p, rng.randint(0, 99), n_runs), cost * n_runs))
     T.append(('rotatedplanar', _run('RotatedPlanarCode(3,3)', 'RotatedPlanarSMWPMDecoder()', bpf, 0.1, rng.randint(0, 99), 20, T=3, q=0.1), 400))
+    for fam in (0, 1):       # direct decode_ftp calls (arrays before/after, same arrays decoded again) after every prior family
+        for _ in range(8 if not heavy else 24):
+            T.append((('rotatedplanar', 'rotatedtoric')[fam] + '-ftp', ftp_decode_op(rng, ns, fam), 6))
     return T
 
 
@@ -632,7 +702,8 @@ def _compare_targets(ctx, scen_ops, scen_res, tidx, fresh, T, label, nbad, key='
                      {'prior': label, 'n_syndromes_differing_in_sweep': sum(a != b for a, b in zip(exp.split(','), r.split(',')))})
         else:
             _confirm(ctx, key,
-                     'the aggregate of a seeded run differs from the same run in a fresh process ' + after,
+                     ('the result of a direct decode_ftp call differs from the same call in a fresh process ' if op['op'] == 'decode_ftp' else
+                      'the aggregate of a seeded run differs from the same run in a fresh process ') + after,
                      hist, op, exp, r, {'prior': label})
 
 
@@ -645,7 +716,7 @@ def matrix_block(ctx, extra_priors=(), flagged_elsewhere=()):
     rng = ctx.rng
     ns = W.namespace()
     T = battery(ctx, ns, heavy=not ctx.quick)
-    P = priors(rng)
+    P = priors(rng, ns)
     nch = ctx.pick(2, 4)
     chunks = _chunks(T, nch)
     scen, meta, cost = [], [], []
@@ -672,10 +743,12 @@ def matrix_block(ctx, extra_priors=(), flagged_elsewhere=()):
         for i, r in enumerate(rs):
             if 'grng' in r:
                 flagged.append((ops[i], r.get('grng_at', 0), r['grng']))
-            if r['mutated']:
+            if ops[i]['op'] == 'decode_ftp':
+                report_ftp(ctx, ops[i], r, 'pristine fork, after ' + (m[0] if m[0] != 'fresh' else 'nothing / itself'))
+            elif r['mutated']:
                 ctx.violation('mutates-' + '-'.join(r['mutated']), 'a call modified the caller\'s arrays or the code matrices',
                               {'op': ops[i], 'mutated': r['mutated']})
-            if r['result'].startswith('ERR') or '!syndrome' in r['result']:
+            if ops[i]['op'] != 'decode_ftp' and (r['result'].startswith('ERR') or '!syndrome' in r['result']):
                 ctx.violation('raises' if 'ERR' in r['result'] else 'recovery-wrong-syndrome', 'operation raised / recovery does not '
                               'reproduce the syndrome', {'op': {k: v for k, v in ops[i].items() if k != 'syndromes'}, 'result': r['result'][:300]})
             if 'gstate' in r:
